@@ -181,6 +181,14 @@ class _debug_logging:
             logging.disable(self.saved[2])
 
 
+def _safe_str(e: BaseException) -> str:
+    """str(e) - or a note that the exception cannot even be printed (its message formatter raised)."""
+    try:
+        return str(e)
+    except Exception as inner:  # noqa: BLE001
+        return f"<unprintable {type(e).__name__}: formatting the message raised {type(inner).__name__}>"
+
+
 def run_program(program, src: str, filename: str = "t.s", writer: Any = None) -> Result:
     """Runs one assembly on an existing Program object (no scratch handling)."""
     with _debug_logging(src):
@@ -201,7 +209,7 @@ def _run_program(program, src: str, filename: str = "t.s", writer: Any = None) -
     except RecursionError as e:
         return Result(False, "RecursionError", "recursion", exc=e, program=program)
     except Exception as e:  # noqa: BLE001 - every exception is a rejection at this boundary
-        return Result(False, type(e).__name__, norm_text(str(e)), blocks=list(getattr(w, "blocks", [])), exc=e, program=program)
+        return Result(False, type(e).__name__, norm_text(_safe_str(e)), blocks=list(getattr(w, "blocks", [])), exc=e, program=program)
     if err is not None:
         return Result(False, "returned", norm_text(str(err)), program=program)
     res = Result(True, program=program, blocks=list(getattr(w, "blocks", [])))
